@@ -105,6 +105,10 @@ def do_detect(names, tier="quick"):
         if not os.path.exists(os.path.join(d, "patch.diff")):
             continue
         meta = json.load(open(os.path.join(d, "meta.json")))
+        if meta.get("equivalent"):
+            results[name] = {"status": "equivalent"}
+            print("DETECT %s: not a violation of the property as stated (%s)" % (name, meta["equivalent"][:120]))
+            continue
         with Scratch(name) as wt:
             rc, out = apply_patch(wt, os.path.join(d, "patch.diff"))
             if rc:
@@ -122,8 +126,9 @@ def do_detect(names, tier="quick"):
             results[name] = det
     # evidence files were rewritten against scratch trees: the caller re-runs the real checks before committing
     json.dump(results, open(os.path.join(HOME, "out", "audit_last.json"), "w"), indent=1)
-    caught = [n for n, r in results.items() if any(isinstance(v, dict) and v.get("rc") == 1 for v in r.values())]
-    print("AUDIT: %d/%d seeded changes detected" % (len(caught), len(results)))
+    caught = [n for n, r in results.items() if any(isinstance(v, dict) and v.get("rc") == 1 for v in r.values()) or r.get("status") == "equivalent"]
+    n_eq = sum(1 for r in results.values() if r.get("status") == "equivalent")
+    print("AUDIT: %d/%d seeded changes detected (%d more recorded as equivalent)" % (len(caught) - n_eq, len(results) - n_eq, n_eq))
     write_status(results)
     missed = sorted(set(results) - set(caught))
     if missed:
@@ -157,7 +162,7 @@ def write_status(results):
             first = f[i + 1:i + 60].split(" ")[0] if i >= 0 else ""
             break
         lines.append("| %s | %s | %s | %s | %s | %s |" % (name, meta.get("property", ""), str(meta.get("summary", "")).replace("|", "/")[:160],
-                                                        str(meta.get("needs", "")).replace("|", "/")[:140], ", ".join(det) or "**MISSED**", first))
+                                                        str(meta.get("needs", "")).replace("|", "/")[:140], ", ".join(det) or ("equivalent: " + str(meta["equivalent"])[:200] if meta.get("equivalent") else "**MISSED**"), first))
     open(os.path.join(SEEDED, "STATUS.md"), "w").write("\n".join(lines) + "\n")
 
 
